@@ -1,5 +1,16 @@
-//! engine binary skeleton: see ../CONTRIBUTING.md
+//! C19 engines: see ../CONTRIBUTING.md and DESIGN.md §6 C19.
+//!
+//!   vmon_decl c19-programs --seed N --tier quick|thorough --out FILE
+//!   vmon_decl c19-prebuild            (bin/setup: build the generated programs'
+//!                                      dependencies once, genfast profile)
 use vmon::report::Report;
+
+mod docgen;
+mod gensys;
+mod live;
+mod oracle;
+mod programs;
+mod spec;
 
 pub struct Args {
     pub engine: String,
@@ -61,7 +72,16 @@ fn main() {
     let t0 = std::time::Instant::now();
     let _quick = args.tier != "thorough";
     let mut rep: Report = match args.engine.as_str() {
-        // "<engine-name>" => ...,
+        "c19-programs" => programs::run(args.seed, _quick, args.threads),
+        "c19-prebuild" => {
+            programs::prebuild();
+            return;
+        }
+        "c19-emit" => {
+            // debugging aid: print the program + manifest of one seed
+            programs::emit(args.seed);
+            return;
+        }
         _ => usage(),
     };
     for p in vmon::panics::take_unexpected() {
